@@ -168,6 +168,8 @@ def blocks_oracle(req, out):
         runs = 0; prev_blank = True
         for l in ls.split(","):
             t, e = l.rsplit("/", 1)
+            if e not in ("n", "l", "c"):
+                return "a line ends in %r, which is neither LF nor CRLF nor the end of the text" % e
             t = unhx(t); e = {"n": b"", "l": b"\n", "c": b"\r\n"}[e]
             recon += t + e
             if not blank(t) and prev_blank: runs += 1
